@@ -33,6 +33,7 @@ RULES = {
     "R6.3": "shuffle: key <- split(key)[0], permutation(split(key)[1], arange(n_states)), gather by p, re-index by an inverse of the same p (p[argsort(p)[m]] -> m leaves no p)",
     "R6.4": "self.key = PRNGKey(config.random_seed)",
     "R6.5": "SemiAsyncValueIteration's overridden state-action term equals ValueIteration's (same fixed point as synchronous VI)",
+    "R6.7": "the sweep of one solver is built from that solver's own partition, order and key: no module-level / class-level container and nothing on the problem object is written by the package (a compiled shuffle or sweep function cached there belongs to the first solver that made it) - instances of C19 R19.5, expected count zero",
     "R6.6": "batch_order is written only by the constructor (None) and by _restore_state_from_checkpoint in live code",
 }
 ASSUMPTIONS = [
@@ -42,6 +43,9 @@ ASSUMPTIONS = [
 
 
 def run(ctx: Context, col) -> None:
+    from .c12 import _shared_state
+    _shared_state(ctx, col, "R6.7")
+    col.floor("R6.7", 2)
     cls = ctx.ct.get("SemiAsyncValueIteration")
     file = cls.module.relpath
     ko, kfn = ctx.ct.require(cls, "_calculate_updated_value_scan_state_batches")
